@@ -408,7 +408,7 @@ pub(crate) fn c14_region_name(_name: &str, _index: &str) -> String {
 #[kani::stub(std::vec::Vec::<T>::with_capacity, stubs::with_capacity_stub)]
 #[kani::stub(std::vec::Vec::<T>::reserve, stubs::reserve_stub)]
 #[kani::stub(<[u8]>::to_vec, stubs::to_vec_stub8)]
-#[kani::stub(crate::vec_region_name, c14_region_name)]
+#[kani::stub(crate::base::read_write::vec_region_name, c14_region_name)]
 fn c14_raw_import_step() {
     let mut buf: Box<[u8; CAPB]> = Box::new(kani::any());
     // stored header (if the region is long enough to have one)
